@@ -456,13 +456,29 @@ def proto_log_siblings(ctx: Ctx, rep: Report) -> None:
             rep.fail(P, f'Compiler.{meth}', d.fn.path, d.fn.lineno,
                      'no LOG branch', key='LOG:branch')
             continue
+        # the branch itself, and any helper method of the class that the
+        # branch hands the payload to (one level)
+        scopes = [(b.body, 'payload')]
+        comp = ctx.cls(R.COMP)
+        for st in b.body:
+            for x in ast.walk(st):
+                if isinstance(x, ast.Call) and isinstance(
+                        x.func, ast.Attribute) and norm(
+                        x.func.value) == 'self' and (
+                        x.func.attr in comp.methods):
+                    callee = comp.methods[x.func.attr]
+                    ps = [p for p in callee.params if p != 'self']
+                    for i, a in enumerate(x.args):
+                        if norm(a) == 'payload' and i < len(ps):
+                            scopes.append((callee.node.body, ps[i]))
         unp = any(
             isinstance(x, ast.Call) and norm(x.func) == 'pickle.loads'
-            and x.args and norm(x.args[0]) == 'payload'
-            for st in b.body for x in ast.walk(st))
+            and x.args and norm(x.args[0]) == var
+            for body, var in scopes for st in body for x in ast.walk(st))
         raw_attr = [
-            norm(x) for st in b.body for x in ast.walk(st)
-            if isinstance(x, ast.Attribute) and norm(x.value) == 'payload'
+            norm(x) for body, var in scopes for st in body
+            for x in ast.walk(st)
+            if isinstance(x, ast.Attribute) and norm(x.value) == var
         ]
         rep.count()
         rep.check(
